@@ -21,6 +21,7 @@ var (
 	pQRefused            = simrt.NewProbe("queue.bounded.push.refused")
 	pQPullAfterClose     = simrt.NewProbe("queue.items.drained.after.close")
 	pQPorcupineRun       = simrt.NewProbe("queue.porcupine.checked")
+	pQLong               = simrt.NewProbe("queue.long.history(no.linearizability.check)")
 )
 
 // kindOf strips the numeric suffix of a task name: "cons3" -> "cons".
@@ -59,12 +60,25 @@ func scenarioQ(c *harness.Ctx) {
 	nCons := 1 + tp.Pick(3, 4, 3, 2, 1, 1, 1, 1)
 	items := make([]int, nProd)
 	total := 0
+	// long histories (too long for the linearizability checker, still covered
+	// by the exactly-once / order / drain / deadlock oracles)
+	long := tp.Bool(1, 30)
 	for i := range items {
-		items[i] = tp.Choose(5)
-		if total+items[i] > 16 {
-			items[i] = 0
+		if long {
+			items[i] = tp.Choose(19)
+			if nProd*19 > 240 {
+				items[i] = tp.Choose(240/nProd + 1)
+			}
+		} else {
+			items[i] = tp.Choose(5)
+			if total+items[i] > 16 {
+				items[i] = 0
+			}
 		}
 		total += items[i]
+	}
+	if long {
+		pQLong.Hit()
 	}
 	closerYields := tp.Choose(6)
 	yieldDen := 1 + tp.Choose(4) // harness yield density
